@@ -125,8 +125,9 @@ Proof.
 Qed.
 Print Assumptions C04_no_stale_entry_refuted.
 
-(* PARTIAL, exact side condition: in histories WITHOUT RENAME every index row belongs to a live hole (hole removal included,
-   now that it clears the hole's rows).  The witness above shows that one rename is enough to break it. *)
+(* PARTIAL, SUFFICIENT side condition: in histories WITHOUT RENAME every index row belongs to a live hole (hole removal included,
+   now that it clears the hole's rows).  The witness above shows that a rename can break it; "no rename" is not necessary (many
+   histories with a rename still satisfy the conclusion), only sufficient. *)
 Theorem C04_rows_live_partial : forall ops s,
   forallb (fun op => negb (is_rename op)) ops = true -> reaches ops s -> rows_live s.
 Proof. intros ops s Hq R. exact (wf_rows_live s (reaches_WF ops s Hq R)). Qed.
@@ -327,7 +328,7 @@ Proof.
 Qed.
 Print Assumptions C04_api_read_your_write_text_partial.
 
-(* re-saving a stored hole and group.remove_children(non-child) keep the object id list; the latter changes nothing at all *)
+(* re-saving a stored hole keeps the object id list and the records *)
 Theorem C04_resave_keeps_object_ids : forall ops s h s',
   forallb (fun op => negb (is_rename op)) ops = true -> reaches ops s ->
   outcome (api_step s (SaveHole h)) = Some s' -> objids s' = objids s /\ recs s' = recs s.
@@ -340,6 +341,8 @@ Proof.
 Qed.
 Print Assumptions C04_resave_keeps_object_ids.
 
+(* DEFINITIONAL: api_step (RemoveViaGroup h d) is AOk s by definition of the model; what ties this clause to the code is the
+   correspondence (the driver calls group.remove_children(data) and every raw dataset / record must be unchanged) *)
 Theorem C04_non_child_removal_ignored : forall s h d s', outcome (api_step s (RemoveViaGroup h d)) = Some s' -> s' = s.
 Proof.
   intros s h d s' Ho. simpl in Ho. destruct (live_hole s h); simpl in Ho; [|discriminate].
@@ -348,7 +351,7 @@ Qed.
 Print Assumptions C04_non_child_removal_ignored.
 
 (* appending to a concatenated array never changes a stored value: np.hstack promotes to the join of the two element types
-   (int32 / float / <Uw text); every element of either array denotes the same value afterwards and fits the new type *)
+   (int32 / float / <Uw text); every element of either array denotes the same value afterwards and fits the new type ... *)
 Theorem C04_append_widens : forall x y,
   same_family (fst x) (fst y) = true -> forallb (fits (fst x)) (snd x) = true -> forallb (fits (fst y)) (snd y) = true ->
   ConcatDtype.decode (hstack x y) = ConcatDtype.decode x ++ ConcatDtype.decode y
@@ -356,11 +359,33 @@ Theorem C04_append_widens : forall x y,
 Proof. exact hstack_decodes. Qed.
 Print Assumptions C04_append_widens.
 
-(* ... whereas casting the result back to the element type of the array that was there first does (2.5 -> 2, 'sandstone' -> 'san') *)
-Theorem C04_append_keep_first_refuted :
+(* ... and so does what is written to the file (floating arrays as float32) ON THE DOMAIN of the model, stated as hypotheses:
+   |integer| <= 2^24 and |float| <= 2^24 (integers and halves), no user value equal to the no-data value, one value family per label *)
+Theorem C04_append_stored_partial : forall x y,
+  same_family (fst x) (fst y) = true -> forallb (fits (fst x)) (snd x) = true -> forallb (fits (fst y)) (snd y) = true ->
+  forallb in_domain (snd x) = true -> forallb in_domain (snd y) = true ->
+  ConcatDtype.decode (stored (hstack x y)) = ConcatDtype.decode x ++ ConcatDtype.decode y.
+Proof. exact stored_hstack_decodes. Qed.
+Print Assumptions C04_append_stored_partial.
+
+(* REFUTED outside that domain (real code, open finding int-values-altered-in-float-label): an int32 data set whose name is shared
+   with float data of another hole is kept as float32 on file: 16777217 reads back as 16777216 after a re-open *)
+Theorem C04_append_stored_refuted :
+  ~ (forall x y, same_family (fst x) (fst y) = true -> forallb (fits (fst x)) (snd x) = true -> forallb (fits (fst y)) (snd y) = true ->
+       ConcatDtype.decode (stored (hstack x y)) = ConcatDtype.decode x ++ ConcatDtype.decode y).
+Proof.
+  intros H. destruct stored_large_int_altered as (x & y & F & Hx & Hy & Hne). exact (Hne (H x y F Hx Hy)).
+Qed.
+Print Assumptions C04_append_stored_refuted.
+
+(* ------------------------------------------------------------------------------------------------------
+   Discriminates seeded variants (NOT statements about the checked code): a variant of update_array_attribute that casts the
+   stacked array back to the element type of the array that was there first (seed C04-r2-2) loses values (2.5 -> 2,
+   'sandstone' -> 'san'); the unchanged code has no such cast, and C04_append_widens is what holds of it.                  *)
+Theorem C04_append_cast_back_loses :
   ~ (forall x y, same_family (fst x) (fst y) = true -> forallb (fits (fst x)) (snd x) = true -> forallb (fits (fst y)) (snd y) = true ->
        ConcatDtype.decode (hstack_keep_first x y) = ConcatDtype.decode x ++ ConcatDtype.decode y).
 Proof.
   intros H. destruct keep_first_loses as (x & y & F & Hx & Hy & Hne). exact (Hne (H x y F Hx Hy)).
 Qed.
-Print Assumptions C04_append_keep_first_refuted.
+Print Assumptions C04_append_cast_back_loses.
